@@ -5,6 +5,14 @@ HERE = os.path.dirname(os.path.abspath(__file__))
 sys.path.insert(0, HERE)
 from vlib import manifest_data as m
 checks, na = [], []
+from vlib import kernel_table as _kt
+FLOWS_BY_PROP = {}
+for _a, _mod in _kt.areas().items():
+    if isinstance(_mod, Exception) or _a == "pysem":
+        continue
+    for _f in getattr(_mod, "FLOWS", []):
+        for _p in _f.props:
+            FLOWS_BY_PROP.setdefault(_p, []).append(_f.func)
 CLAIMED = set(open(os.path.join(HERE, "vlib", "claimed.txt")).read().split())
 for i in range(1, 21):
     pid = "C%02d" % i
@@ -14,7 +22,14 @@ for i in range(1, 21):
     except ModuleNotFoundError:
         ent = None
     if ent and pid in CLAIMED:
-        checks.append(m.check(pid, ent["text"], m.COMMON_NOTE + ent["note"], ent["technique"], ent.get("design_ref", "7/" + pid)))
+        flows = FLOWS_BY_PROP.get(pid, [])
+        fnote = ""
+        if flows:
+            fnote = (f" Translator tie: the whole bodies of {len(flows)} library functions ({', '.join(flows[:6])}{', ...' if len(flows) > 6 else ''}) are regenerated from "
+                     "/repo on every run as syntax of a deep embedding of Python (vlib/flow.py -> coq/gen/F_<area>.v) and proved equal, for all arguments, to the model "
+                     f"functions the property theorems are about (theorems {pid}_flow_* ; semantics in coq/Prelude/PyAst.v / PyAstMut.v / PyWorld.v, checked against CPython by "
+                     "the unit flow.semantics); a change of any of those functions breaks its tie.")
+        checks.append(m.check(pid, ent["text"], m.COMMON_NOTE + ent["note"] + fnote, ent["technique"], ent.get("design_ref", "7/" + pid)))
     else:
         na.append({"property_id": pid, "reason": (getattr(mod, "NOT_CLAIMED_REASON", None) if ent is not None or 'mod' in dir() and mod else None) or
                    "not claimed yet: the model and theorems for this property are still being built (DESIGN.md section 9); the technique applies"})
